@@ -91,5 +91,7 @@ WlSignature(ref0, prev, c) ==
     ELSE "wirelength"
 C11Signature(p) == IF p.ow < 0 \/ p.ow > 1000 THEN "ordering-width-outside-0-1" ELSE "moved"
 ThrowSignature(entry, what) == "detailed-throw"
-FateSignature(ev) == IF ev.e = "Timeout" THEN "timeout" ELSE "fate"
+\* a hang is identified by where it hangs (class computed by the alarm handler of the harness from the innermost
+\* library frames)
+FateSignature(ev) == IF ev.e = "Timeout" THEN "timeout-" \o ev.hang ELSE "fate"
 =============================================================================
